@@ -53,6 +53,13 @@ def run_case(case: Dict[str, Any], ctx) -> None:
     def key(clause: str) -> str:
         return f"C02:{case['fn']}:{clause}" + (f":{feat}" if feat else "")
 
+    if dtype == torch.float64 and sA % 3 == 0:
+        try:  # history: the same configuration evaluated first in bfloat16 / float32 in this process
+            run_fit(op, U, cfg, constraint, torch.bfloat16, sA, uA)
+            run_fit(op, U, cfg, constraint, torch.float32, sA, uA)
+            ctx.count("history:primed-in-lower-precision")
+        except Exception:
+            pass
     try:
         A = run_fit(op, U, cfg, constraint, dtype, sA, uA)
     except Exception as e:
@@ -175,6 +182,13 @@ def run_prim(case: Dict[str, Any], ctx) -> None:
         up = torch.randn(tuple(shape), generator=g, dtype=torch.float64).to(dtype)
         eps = _EPS[dname]
         sig = f"prim|{dname}|rank{rank}|{'zero' if c == 0 else 'neg' if c < 0 else 'pos'}|{type(c).__name__}|{'empty' if 0 in shape else 'nonempty'}"
+        if j % 2 == 0 and x.numel():
+            # history: the same factor applied first to tensors of other dtypes (a cached constant must not leak its dtype)
+            for lp in (torch.bfloat16, torch.float32, torch.float64):
+                if lp != dtype:
+                    xp = torch.ones(3, dtype=lp, requires_grad=True)
+                    scale_bwd(scale_fwd(xp, c), c).sum().backward()
+            ctx.count("history:primed-with-other-dtypes")
         for which, f in (("scale_fwd", scale_fwd), ("scale_bwd", scale_bwd)):
             xin = x.clone().requires_grad_(True)
             ver = xin._version
